@@ -432,3 +432,19 @@ fn extract_stream_item_types(ty: &Type) -> Result<(Type, Type), Error> {
         )),
     }
 }
+
+/// The serde attributes of a parameter's field in a generated parameters struct: the field goes
+/// by the parameter's wire name and a `None` argument is left out.
+pub(super) fn param_field_attrs(
+    serialized_name: &Option<String>,
+    is_optional: bool,
+) -> proc_macro2::TokenStream {
+    match (serialized_name, is_optional) {
+        (Some(renamed), true) => quote::quote! {
+            #[serde(rename = #renamed, skip_serializing_if = "Option::is_none")]
+        },
+        (Some(renamed), false) => quote::quote! { #[serde(rename = #renamed)] },
+        (None, true) => quote::quote! { #[serde(skip_serializing_if = "Option::is_none")] },
+        (None, false) => quote::quote! {},
+    }
+}
